@@ -318,8 +318,11 @@ def _check_integral(ctx, f, view, conds, node):
     want = None
     from ..guards import literals
     for _, e, pol in literals(c):
-        if isinstance(e, ast.Compare) and 'is_integer' in U(untag(view.expand(e, st))):
+        ex_ = untag(view.expand(e, st))
+        if isinstance(e, ast.Compare) and 'is_integer' in U(ex_):
             want = (e, pol)
+        elif isinstance(ex_, ast.Call) and isinstance(ex_.func, ast.Name) and ex_.func.id == 'all' and 'is_integer' in U(ex_):
+            want = (ast.Compare(left=e, ops=[ast.Eq()], comparators=[ast.Constant(True)]), pol)   # all(v.is_integer() ..)
     okc = want is not None and want[1] and isinstance(want[0].ops[0], ast.Eq)
     ctx.check('R-CONV/integral-only', f, 'str(int(v))', okc,
               'str(int(v)) is used under `%s`: it may only be used when every present value is integral' % show(c)[:100], node,
@@ -418,11 +421,20 @@ def check_series_returns(ctx):
     if names:
         from ..guards import f_and
         obj_inplace = to_formula(parse_expr('%s == object and inplace' % names[0]))
+        arms = []
         for r in [n for n in walk_own(f.node) if isinstance(n, ast.Return)]:
-            v = r.value
+            def split(c_, v_):
+                if isinstance(v_, ast.IfExp):      # `return True if inplace else series.copy()`: one arm per outcome
+                    t_ = to_formula(v_.test)
+                    from ..guards import f_not
+                    split(f_and(c_, t_), v_.body)
+                    split(f_and(c_, f_not(t_)), v_.orelse)
+                else:
+                    arms.append((r, c_, v_))
+            split(conds.of(r), r.value)
+        for r, c, v in arms:
             if isinstance(v, ast.Constant) and v.value is True:
                 continue
-            c = conds.of(r)
             sat = Universe(int_atoms=lambda a: True).satisfiable(f_and(c, obj_inplace))
             ctx.check('R-CONV/series-return', f, 'object+inplace @ %s' % U(v)[:30], not sat,
                       'an object (string) column with inplace=True can reach `return %s` (under `%s`): the in-place call must '
